@@ -36,6 +36,11 @@ def check_bytes(b):
     back = libx.call('decode', B.decode, want)[1]
     if back != b:
         raise Violation('codec/decode-inverse', 'decode(encode(%s)) = %s' % (b.hex()[:60], back.hex()[:60]))
+    if len(b) % 3 == 1 or len(b) < 3:
+        # the same byte string held as bytearray / memoryview (both accepted by the encoder) encodes the same
+        for kind, v in libx.spellings(b)[1:]:
+            if libx.call('encode-' + kind, B.encode, v)[1] != want:
+                raise Violation('codec/encode-' + kind, 'encode(%s(%s)) differs from encode(bytes)' % (kind, b.hex()[:40]))
     return {'nt': b[:1] == b'\x00', 'cls': ['codec-bytes'], 'evals': 2}
 
 
